@@ -357,6 +357,26 @@ func main() {
 		workerMain()
 		return
 	}
+	if len(os.Args) >= 3 && os.Args[1] == "run" {
+		// debugging aid: bornocheck run <file.bn> [stdin-file] : one in-process run, result as JSON
+		b, _ := os.ReadFile(os.Args[2])
+		in := ""
+		if len(os.Args) >= 4 {
+			x, _ := os.ReadFile(os.Args[3])
+			in = string(x)
+		}
+		work, _ := os.MkdirTemp(filepath.Join(verifRoot, ".work"), "run")
+		defer os.RemoveAll(work)
+		p := &Pool{N: 1, WorkDir: work}
+		cs := make(chan *Case, 1)
+		cs <- &Case{ID: 1, Mode: "run", Src: string(b), Stdin: in, WantT: false}
+		close(cs)
+		p.Run(cs, func(c *Case, r *Result) {
+			j, _ := json.MarshalIndent(r, "", " ")
+			fmt.Println(string(j))
+		})
+		return
+	}
 	if len(os.Args) < 2 {
 		usage()
 	}
